@@ -347,6 +347,7 @@ class SimZkClient:
         self.state = KazooState.CONNECTED
         self._listeners = []
         self.pump = None
+        self.call_hook = None      # called before every ZooKeeper call
         self.nwrites = 0
         self.fault_plan = None     # {'at': k, 'kind': 'crash'|'conn_loss',
         #                             'applied': bool}
@@ -412,7 +413,11 @@ class SimZkClient:
     def _retry(self, func, *args, **kwargs):
         return func(*args, **kwargs)
 
-    def _check(self):
+    def _check(self, path=None):
+        hook = self.call_hook
+        if hook is not None:
+            # a pre-emption point: another actor may act before this call
+            hook(path)
         if not self._session.alive:
             raise kexc.SessionExpiredError()
 
@@ -439,7 +444,7 @@ class SimZkClient:
 
     # -- reads
     def exists(self, path, watch=None):
-        self._check()
+        self._check(path)
         path = _norm(path)
         node = self._server.nodes.get(path)
         if watch is not None:
@@ -448,7 +453,7 @@ class SimZkClient:
         return node.stat() if node is not None else None
 
     def get(self, path, watch=None):
-        self._check()
+        self._check(path)
         path = _norm(path)
         node = self._server.nodes.get(path)
         if node is None:
@@ -459,7 +464,7 @@ class SimZkClient:
         return node.data, node.stat()
 
     def get_children(self, path, watch=None, include_data=False):
-        self._check()
+        self._check(path)
         path = _norm(path)
         node = self._server.nodes.get(path)
         if node is None:
